@@ -79,7 +79,8 @@ def file_class(ns, sub):
     return _SUB[ns]
 
 
-def call(iface, path, chunk, method, headers, resp=None, sub=False):
+def call(iface, path, chunk, method, headers, resp=None, sub=False, via=None):
+    """via='view': the response is what a request_response view returns; via='file_wrapper': the WSGI server offers wsgi.file_wrapper"""
     from baize import asgi, wsgi
     ctype_arg = CTYPES.get(os.path.splitext(path)[1])
     req = drivers.Req(method=method, path=b"/f", headers=headers,
@@ -87,11 +88,23 @@ def call(iface, path, chunk, method, headers, resp=None, sub=False):
     random.seed(BOUNDARY_SEED[0])  # the same multipart boundary for a GET and its HEAD twin; another one for the next case
     if iface == "wsgi":
         resp = resp or file_class(wsgi, sub)(path, chunk_size=chunk, content_type=ctype_arg)
-        r = drivers.run_wsgi(resp, drivers.to_environ(req))
+        app = resp
+        if via == "view":
+            app = wsgi.request_response(lambda request, resp=resp: resp)
+        environ = drivers.to_environ(req)
+        if via == "file_wrapper":
+            from wsgiref.util import FileWrapper
+            environ["wsgi.file_wrapper"] = FileWrapper  # optional in PEP 3333: a server may offer it, an application may use it
+        r = drivers.run_wsgi(app, environ)
         hdrs = drivers.norm_headers_wsgi(r.headers)
         return r, r.code, hdrs, r.body
     resp = resp or file_class(asgi, sub)(path, chunk_size=chunk, content_type=ctype_arg)
-    r = drivers.run_asgi(resp, drivers.to_scope(req))
+    app = resp
+    if via == "view":
+        async def view(request, resp=resp):
+            return resp
+        app = asgi.request_response(view)
+    r = drivers.run_asgi(app, drivers.to_scope(req))
     return r, r.status, drivers.norm_headers_asgi(r.headers), r.body
 
 
@@ -119,6 +132,7 @@ def execute(ctx, env, case, resp=None):
     if vkey not in env.validators:
         r0, st0, h0, b0 = call(iface, path, chunk, "GET", [], sub=sub)
         env.validators[vkey] = (hget(h0, "etag"), hget(h0, "last-modified"))
+    via = case.get("via")
     etag, lm = env.validators[vkey]
     headers = []
     rng_h = case["range"]
@@ -135,7 +149,7 @@ def execute(ctx, env, case, resp=None):
     fam = "wsgi" if iface == "wsgi" else "asgi"
     BOUNDARY_SEED[0] += 1
     try:
-        r, status, hdrs, body = call(iface, path, chunk, method, headers, resp, sub=sub)
+        r, status, hdrs, body = call(iface, path, chunk, method, headers, resp, sub=sub, via=via)
     except drivers.HarnessError:
         raise
     if r.exc is not None:
@@ -189,7 +203,7 @@ def execute(ctx, env, case, resp=None):
         if body != b"":
             ctx.violation("head-with-body", case, f"{len(body)} bytes")
         g = dict(case, method="GET")
-        rg, sg, hg, bg = call(iface, path, chunk, "GET", headers, sub=sub)
+        rg, sg, hg, bg = call(iface, path, chunk, "GET", headers, sub=sub, via=via)
         ctx.mon("head-equals-get")
         if sg != status or hg != hdrs:
             ctx.violation("head-headers-differ-from-get", case, f"HEAD {status} {hdrs}\nGET  {sg} {hg}")
@@ -304,6 +318,11 @@ def gen_cases(ctx, rng):
                         for method in (("GET", "HEAD") if rng.random() < 0.3 else ("GET",)):
                             c = {"iface": iface, "size": size, "chunk": chunk, "range": rh, "if_range": kind,
                                  "method": method, "ext": rng.choice([".bin"] * 7 + [".txt", ".ct1", ".ct2"])}
+                            r = rng.random()
+                            if r < 0.08:
+                                c["via"] = "view"  # returned by a request_response view (also with the zero-copy extension, also for HEAD)
+                            elif r < 0.16 and iface == "wsgi":
+                                c["via"] = "file_wrapper"
                             if kind is not None and rng.random() < 0.3:
                                 c["subclass"] = True  # a subclass with its own generate_etag(): "current ETag" is what IT advertises
                             yield c
@@ -315,6 +334,12 @@ REGRESSION = [
     {"iface": "asgi", "size": 10, "chunk": 4, "range": "", "if_range": None, "method": "GET", "ext": ".bin"},
     {"iface": "asgi", "size": 10, "chunk": 4, "range": "bytes=0-1", "if_range": "empty", "method": "GET", "ext": ".bin"},
     {"iface": "asgi-zc", "size": 100, "chunk": 8, "range": "bytes=0-9,50-59", "if_range": "etag", "method": "GET", "ext": ".txt"},
+    {"iface": "asgi-zc", "size": 100, "chunk": 8, "range": None, "if_range": None, "method": "HEAD", "ext": ".bin", "via": "view"},
+    {"iface": "wsgi", "size": 100, "chunk": 8, "range": "bytes=10-19", "if_range": None, "method": "GET", "ext": ".bin", "via": "file_wrapper"},
+    # a chunk size above one MiB and a file longer than that (whole and as a range)
+    {"iface": "asgi", "size": 1_600_003, "chunk": 2_097_152, "range": None, "if_range": None, "method": "GET", "ext": ".bin"},
+    {"iface": "asgi", "size": 1_600_003, "chunk": 2_097_152, "range": "bytes=5-1500000", "if_range": None, "method": "GET", "ext": ".bin"},
+    {"iface": "wsgi", "size": 1_600_003, "chunk": 2_097_152, "range": "bytes=5-1500000", "if_range": None, "method": "GET", "ext": ".bin"},
 ]
 
 
